@@ -859,6 +859,30 @@ impl World {
                             return Err(format!("remove_all yielded {n} values, expected {want}"));
                         }
                     }
+                    Op::PanicInExtractIf(t, backward) => {
+                        // a panicking predicate must poison the transaction whichever end drives the iterator (C05)
+                        let r = catch_unwind(AssertUnwindSafe(|| {
+                            let mut tb = txn.open_table(tdef(*t)).unwrap();
+                            let mut n = 0;
+                            let mut it = tb
+                                .extract_if(|_, _| {
+                                    n += 1;
+                                    if n == 2 {
+                                        panic!("injected predicate panic");
+                                    }
+                                    true
+                                })
+                                .unwrap();
+                            for _ in 0..2 {
+                                let _ = if *backward { it.next_back() } else { it.next() };
+                            }
+                        }));
+                        if r.is_err() {
+                            return Err("poisoned-by-panic".into());
+                        }
+                        // fewer than two entries: the predicate never panicked; what it was asked about was extracted
+                        work.t[*t].clear();
+                    }
                     Op::PanicInRetain(t) => {
                         // a panicking predicate must poison the transaction (C05)
                         let r = catch_unwind(AssertUnwindSafe(|| {
@@ -1179,6 +1203,8 @@ pub enum Op {
     MmRemove(u64, u64, u64),
     MmRemoveAll(u64),
     PanicInRetain(usize),
+    /// extract_if whose predicate panics at its second call; driven from the front or from the back
+    PanicInExtractIf(usize, bool),
 }
 
 #[derive(Clone, Debug)]
@@ -1311,6 +1337,9 @@ pub(crate) fn gen_history(rng: &mut Rng, focus: &str, thorough: bool, page: usiz
             if focus == "c05" && rng.chance(1, 6) {
                 ops.push(Op::PanicInRetain(rng.below(2) as usize));
             }
+            if focus == "c05" && rng.chance(1, 6) {
+                ops.push(Op::PanicInExtractIf(rng.below(2) as usize, rng.chance(1, 2)));
+            }
             let end = if (focus == "c05" || focus == "c11") && sp_ops.is_empty() && rng.chance(1, 14) { End::PanicDrop } else { end };
             Step::Txn(TxnSpec { durability, two_phase: rng.chance(1, 3), quick_repair: rng.chance(1, 4), sp_ops, ops, end })
         } else if w < 67 {
@@ -1435,7 +1464,7 @@ pub(crate) fn gen_history(rng: &mut Rng, focus: &str, thorough: bool, page: usiz
             steps.extend(tail);
         }
     }
-    if focus == "c13" || focus == "c10" {
+    if focus == "c13" || focus == "c10" || focus == "c06" {
         // compaction attempts against each kind of pin, alone and on top of pending non-durable
         // commits (a pending non-durable commit pins its durable ancestor internally, which
         // must not be mistaken for - nor hide - a user's reader or savepoint on the same id)
@@ -1742,8 +1771,39 @@ pub fn run(args: &Args) {
         let page = if focus == "c14" { *r.pick(&[512usize, 1024]) } else { *r.pick(&[512usize, 512, 1024, 4096]) };
         let region = if focus == "c14" { 65536u64 } else { *r.pick(&[65536u64, 65536, 1 << 20, 0]) };
         let region = if region != 0 { region.max(page as u64 * 64) } else { 0 };
+        // focus c11: every seventh case uses regions of eight pages and grows well beyond 256 of
+        // them (region numbers of more than one byte in the saved allocator state); such states
+        // are too large for the list-based Lean monitors, the harness oracles judge them alone
+        let many_regions = focus == "c11" && case_index % 7 == 3;
+        let (page, region) = if many_regions { (1024usize, 8192u64) } else { (page, region) };
+        out.mute_hist = focus == "c14" || focus == "c10" || many_regions;
         let cfg = Cfg { page, region, cache: *r.pick(&[0usize, 65536, 1 << 30]) };
-        let steps = gen_history(&mut r, &focus, args.thorough, page);
+        let mut steps = gen_history(&mut r, &focus, args.thorough, page);
+        if many_regions {
+            // grow to several hundred regions with unequal allocation states, save a snapshot both
+            // ways (quick-repair commit, clean close), reopen through it and keep writing
+            let bulk = |t: usize, start: u64, count: u64, len: usize, qr: bool| Step::Txn(TxnSpec {
+                durability: Durability::Immediate,
+                two_phase: qr,
+                quick_repair: qr,
+                sp_ops: vec![],
+                ops: vec![Op::Bulk(t, start, count, len)],
+                end: End::Commit,
+            });
+            let mut block = vec![bulk(0, 10_000, 900, 1500, false), bulk(1, 20_000, 700, 2500, false)];
+            block.push(Step::Txn(TxnSpec { durability: Durability::Immediate, two_phase: false, quick_repair: false, sp_ops: vec![], ops: vec![Op::BulkRemove(0, 10_000 + r.below(300), 250), Op::BulkRemove(1, 20_000 + r.below(300), 150)], end: End::Commit }));
+            block.push(bulk(0, 30_000, 40, 700, true));
+            block.push(if r.chance(1, 2) { Step::CrashReopen } else { Step::Reopen });
+            block.push(Step::CheckIntegrity);
+            block.push(bulk(1, 40_000, 300, 1200, false));
+            block.push(Step::Reopen);
+            block.push(Step::CheckIntegrity);
+            block.push(bulk(0, 50_000, 100, 3000, false));
+            let at = r.below(steps.len() as u64 / 2 + 1) as usize;
+            let tail = steps.split_off(at);
+            steps.extend(block);
+            steps.extend(tail);
+        }
         out.begin_case(&format!("history focus={focus} page={page} region={region} cache={} steps={}", cfg.cache, steps.len()));
         let ok = run_history(&steps, cfg, &focus, &mut out);
         out.end_case(ok);
